@@ -265,6 +265,28 @@ def run_case(desc, seed):
                 add(viol, f"C12:sector:{scheme}", f"{tag} dt={dt}: relative weight {out:.2e} outside the sector")
             if np.any(np.asarray(cur.qntot) != np.asarray(desc["sector"])):
                 add(viol, f"C12:qntot:{scheme}", f"{tag}: qntot {cur.qntot}")
+    # a state that carries a scalar prefactor != 1 (left by a norm-to-prefactor normalisation, an expansion, or set by the caller): the
+    # represented vector is prefactor x tensors, and it is that vector the propagator acts on
+    for cf in (3.0, 0.5j):
+        try:
+            tree, H, t = fresh()
+            configure(t, scheme)
+            t.coeff = cf
+            with rhs_budget(60000):
+                cur = t.evolve(H, 0.1 if timek == "real" else -0.1j)
+            nrun += 1
+            phi = TR.dense_state(cur, order)
+            ref = cf * exact(0.1)
+            if timek == "imag":
+                phi, ref = phi / np.linalg.norm(phi), ref / np.linalg.norm(ref)
+            err = np.linalg.norm(phi - ref) / np.linalg.norm(ref)
+            if not np.isfinite(err) or err > envelope(scheme, hnorm, 0.1, 1):
+                add(viol, f"C12:prefactor:{scheme}:{timek}", f"{tag}: initial state with prefactor {cf}: relative error {err:.3e} of prefactor x tensors "
+                    f"{'(directions compared)' if timek == 'imag' else ''} against the dense propagator applied to prefactor x initial vector; norm {np.linalg.norm(TR.dense_state(cur, order)):.6f}")
+        except BudgetExceeded:
+            pass
+        except Exception as e:
+            add(viol, f"C12:prefactor:exception:{type(e).__name__}:{scheme}", f"{tag}: prefactor {cf}: {e!r}")
     # order: halving the step reduces the one-step error at the scheme's order
     p = ORDER.get(scheme)
     # the slope is only meaningful on a regular point of the manifold: when a bond carries more states than the Schmidt rank of the
